@@ -221,3 +221,65 @@ def fault_cli_case(rec, root):
     return {"ev": "FaultCli", "case": rec["case"], "tag": "cli", "kind": kind, "argv": argv[4:] if kind == "option" else [],
             "how": str(res["exit"]), "stderr_empty": res["stderr"].strip() == "",
             "stderr_head": res["stderr"].strip()[:80]}
+
+
+PROG_FACTORS = """#META CTE_FUENTE: verif
+ELECTRICIDAD, RED, SUMINISTRO, A, 0.500, 2.000, 0.400
+ELECTRICIDAD, INSITU, SUMINISTRO, A, 1.000, 0.000, 0.000
+GASNATURAL, RED, SUMINISTRO, A, 0.005, 1.190, 0.252
+"""
+
+
+def prog_case(rec, root):
+    """realises one configuration of spec/Program.tla (inputs present / missing / a directory / empty / not a
+    components file; factor source; each output absent / writable / in a directory that does not exist; flags),
+    runs the real program and records how it ended and what it left behind"""
+    c = rec["cfg"]
+    d = tempfile.mkdtemp(dir=root)
+    argv = []
+    comps = {"valid": FAULT_BUILDING, "empty": "", "metaonly": "#META CTE_AREAREF: 10\n", "remarks": "# nada\n\n# nada\n",
+             "garbage": "hola, mundo\n", "needsfactor": FAULT_BUILDING + "5, CONSUMO, CAL, GASOLEO, 1, 1\n"}
+    if c["comps"] in comps:
+        open(os.path.join(d, "in.csv"), "w").write(comps[c["comps"]])
+        argv += ["-c", "in.csv"]
+    elif c["comps"] == "missing":
+        argv += ["-c", "no-such-file.csv"]
+    elif c["comps"] == "dir":
+        os.mkdir(os.path.join(d, "adir"))
+        argv += ["-c", "adir"]
+    f = c["fsrc"]
+    if f == "loc":
+        argv += ["-l", "PENINSULA"]
+    elif f == "badloc":
+        argv += ["-l", "MARTE"]
+    elif f == "file":
+        open(os.path.join(d, "fp.csv"), "w").write(PROG_FACTORS + "GASOLEO, RED, SUMINISTRO, A, 0.003, 1.179, 0.311\n")
+        argv += ["-f", "fp.csv"]
+    elif f == "fileincomplete":
+        open(os.path.join(d, "fp.csv"), "w").write(PROG_FACTORS)
+        argv += ["-f", "fp.csv"]
+    elif f == "filebad":
+        open(os.path.join(d, "fp.csv"), "w").write("esto no es, un factor de paso\n")
+        argv += ["-f", "fp.csv"]
+    elif f == "filemissing":
+        argv += ["-f", "no-such-factors.csv"]
+    names = {"oc": "oc.csv", "of": "of.csv", "json": "o.json", "xml": "o.xml", "txt": "o.txt"}
+    for o in ("json", "oc", "txt", "of", "xml"):          # the order of the options on the command line is not the order of main()
+        st = c["out"][o]
+        if st == "ok":
+            argv += ["--" + o, names[o]]
+        elif st == "nodir":
+            argv += ["--" + o, os.path.join("no-such-dir", names[o])]
+    if c["license"]:
+        argv += ["-L"]
+    if c["lm"]:
+        argv += ["--load_matching"]
+    if c["v"]:
+        argv += ["-" + "v" * int(c["v"])]
+    res = run_proc(argv, d)
+    written = [o for o in names if os.path.exists(os.path.join(d, names[o]))]
+    ev = {"ev": "Prog", "case": rec["case"], "tag": "cli", "cfg": c, "argv": argv, "how": str(res["exit"]),
+          "stderr_empty": res["stderr"].strip() == "", "stderr_head": res["stderr"].strip()[:80],
+          "written": written, "printed": "C_ep [kWh/m2.an]" in res["stdout"]}
+    shutil.rmtree(d, ignore_errors=True)
+    return ev
